@@ -680,11 +680,75 @@ func c09Programs(s *sim.Sim, p *sim.Params) {
 	var sample []string
 	defer func() { s.Note("sample", sample) }()
 	sample = append(sample, fmt.Sprintf("mode=program interpreter=%v tagged=%v", interp, pg.tagged), pg.src)
-	sv, err := simBuildServer(pg.src, interp)
+	// fixed companion routes with known answers: a block that fails in the middle of an expression,
+	// a block that returns nothing, and (interpreter only: it needs field assignment) a future
+	// awaited twice whose first result is changed in between
+	base := 3 + s.Choose(sim.SWork, 40)
+	extra := fmt.Sprintf(`
+@ GET /e {
+  $ secret = %d
+  $ zero = 0
+  $ f = async {
+    > secret + (10 / zero)
+  }
+  $ r = await f
+  > {route: "e", r: r}
+}
+
+@ GET /n {
+  $ f = async {
+    $ k = %d
+  }
+  $ r = await f
+  > {route: "n", r: r}
+}
+`, 424200+base, base)
+	if interp {
+		extra += fmt.Sprintf(`
+@ GET /twice {
+  $ f = async {
+    > {a: %d, tags: ["x"]}
+  }
+  $ first = await f
+  $ first.a = first.a + 100
+  $ second = await f
+  > {route: "twice", first: first.a, second: second.a}
+}
+`, base)
+	}
+	sv, err := simBuildServer(pg.src+extra, interp)
 	if err != nil {
 		// the generator must only produce loadable programs; treat as infrastructure trouble
-		s.InfraFail("C09: generated program does not load: " + err.Error() + "\n" + pg.src)
+		s.InfraFail("C09: generated program does not load: " + err.Error() + "\n" + pg.src + extra)
 	}
+	// what a block that returns nothing yields is the engine's business (the two engines differ);
+	// whatever it is, it is the same every time: the first answer, before any block has failed
+	nRef := sv.do(simReq{path: "/n", remote: "10.0.0.2:1"})
+	if nRef.status != 200 {
+		s.Fail("oracle", "block-value:no-return", fmt.Sprintf("awaiting a block that returns nothing answered %d %s", nRef.status, strings.TrimSpace(nRef.body)))
+	}
+	companions := func(when string) {
+		for i := 0; i < 2; i++ {
+			e := sv.do(simReq{path: "/e", remote: "10.0.0.2:1"})
+			if e.status == 200 {
+				s.Fail("oracle", "block-error-lost", fmt.Sprintf("%s: a block that divides by zero was awaited and the route answered 200 %s: await must raise the block's error", when, strings.TrimSpace(e.body)))
+			}
+			n := sv.do(simReq{path: "/n", remote: "10.0.0.2:1"})
+			if n.status != nRef.status || n.body != nRef.body {
+				s.Fail("oracle", "block-value:no-return", fmt.Sprintf("%s: awaiting a block that returns nothing answered %d %s; the first time (before any block had failed) it answered %d %s (interpreter=%v)", when, n.status, strings.TrimSpace(n.body), nRef.status, strings.TrimSpace(nRef.body), interp))
+			}
+		}
+		if interp {
+			tw := sv.do(simReq{path: "/twice", remote: "10.0.0.2:1"})
+			want := fmt.Sprintf(`"first":%d`, base+100)
+			want2 := fmt.Sprintf(`"second":%d`, base)
+			if tw.status != 200 || !strings.Contains(tw.body, want) || !strings.Contains(tw.body, want2) {
+				s.Fail("oracle", "block-value:awaited-twice", fmt.Sprintf("%s: a future awaited twice, the first result changed in between, answered %d %s; want first=%d second=%d", when, tw.status, strings.TrimSpace(tw.body), base+100, base))
+			}
+		}
+		s.Probe("companion-routes-checked")
+	}
+	companions("before the generated program")
 	if strings.Contains(pg.src, "$ o = {") {
 		s.Probe("program:shares-object")
 	}
@@ -726,6 +790,7 @@ func c09Programs(s *sim.Sim, p *sim.Params) {
 			s.Quiesce(0) // let un-awaited blocks of this execution finish before the next one
 		}
 	}
+	companions("after the generated program")
 	s.Quiesce(31 * time.Second)
 	if pg.tagged {
 		s.Probe("program:await-only")
